@@ -1,6 +1,35 @@
-(** C11 - placeholder until the label-injectivity and distinctness theorems land. *)
-From Coq Require Import List NArith.
-From BP Require Import Model.Gens.
-Theorem C11_kind_bytes_differ : kind_byte KG <> kind_byte KH.
-Proof. discriminate. Qed.
-Print Assumptions C11_kind_bytes_differ.
+(** C11 — generators: labels are injective (distinct inputs reach the hash), the table interleaves the two
+    vectors, smaller parameter sets are prefixes.  Distinctness of the hash OUTPUTS is checked on the
+    complete finite domain by computation against the implementation (4103 points) on every run; the
+    Gallina SHAKE256 / SHA3-512 / Ristretto map are models of dependencies (validated, not verified). *)
+From Coq Require Import List Arith NArith Bool.
+From BP Require Import Model.Codec Model.Gens Proofs.GensP.
+Import ListNotations.
+Open Scope N_scope.
+
+Theorem C11_chain_input_injective : forall k k' i i', i < 2 ^ 32 -> i' < 2 ^ 32 -> chain_input k i = chain_input k' i' -> k = k' /\ i = i'.
+Proof. exact chain_input_injective. Qed.
+Print Assumptions C11_chain_input_injective.
+
+Theorem C11_mask_label_injective : forall k k', mask_label k = mask_label k' -> k = k'.
+Proof. exact mask_label_injective. Qed.
+Print Assumptions C11_mask_label_injective.
+
+Theorem C11_chain_vs_mask_label : forall k i j, chain_input k i <> mask_label j.
+Proof. exact chain_vs_mask_label. Qed.
+Print Assumptions C11_chain_vs_mask_label.
+
+(** table order: entry 2i is G_i, entry 2i+1 is H_i *)
+Theorem C11_table_interleaved : forall (a b : list N) i, List.length a = List.length b -> (i < List.length a)%nat ->
+  nth (2 * i) (interleaveN a b) 0 = nth i a 0 /\ nth (2 * i + 1) (interleaveN a b) 0 = nth i b 0.
+Proof. exact interleaveN_nth. Qed.
+Print Assumptions C11_table_interleaved.
+
+Theorem C11_chain_prefix : forall n n' bs, (n <= n')%nat -> split64 n bs = firstn n (split64 n' bs).
+Proof. exact split64_firstn. Qed.
+Print Assumptions C11_chain_prefix.
+
+Theorem C11_aggregated_iter_length : forall vecs n m, Forall (fun v => (n <= List.length v)%nat) vecs -> (m <= List.length vecs)%nat ->
+  List.length (aggregated vecs n m) = (m * n)%nat.
+Proof. exact aggregated_length. Qed.
+Print Assumptions C11_aggregated_iter_length.
